@@ -25,7 +25,7 @@ import (
 // evaluation on a held result, or an environment step on the pool.
 
 var c13Lists = []scen.ListSpec{
-	{ID: 1, Text: "! list A\n||example.org^\n||example.org/ads\n||ads.example.com^\n/ex[a-z]+le\\.net/\n/ad$domain=example.org\n@@||example.org^$generichide\n##.g1\nexample.org##.s1\nexample.org#@#.g2\n##.g2\n/(/\n@@||docsite.test^$document\nmetrics.example.com^\n||cdn.test/blocked.js\n"},
+	{ID: 1, Text: "! list A\n||example.org^\n||example.org/ads\n||ads.example.com^\n/ex[a-z]+le\\.net/\n/ad$domain=example.org\n@@||example.org^$generichide\n##.g1\nexample.org##.s1\nexample.org#@#.g2\n##.g2\n/(/\n@@||docsite.test^$document\nmetrics.example.com^\n||cdn.test/blocked.js\n@@||news.example.org/reader/$urlblock\n||tracker.test^\n~other.net##.g3\n"},
 	{ID: 2, Text: "# list B\n0.0.0.0 example.org\n:: example.org\n127.0.0.1 hosts.test alias.test\n||blocked.test^$client=10.0.0.1\n||tagged.test^$ctag=pc\n||tagged.test^$dnstype=AAAA,important\n||rw.test^$dnsrewrite=1.2.3.4\n||rw.test^$dnsrewrite=2.3.4.5\n@@||rw.test^$dnsrewrite=1.2.3.4\n||rw.test^$dnsrewrite=NOERROR;MX;10 mx.test\n@@||rw.test^$dnsrewrite=NOERROR;MX;10 mx.test\n/h[o0]sts\\.test/\n"},
 	{ID: -3, Text: "||blocked.test^$ctag=~pc\n@@||ads.example.com^$script\n||example.org^$third-party\n"},
 }
@@ -55,10 +55,13 @@ func c13Ops() []c13Op {
 		{name: "netall example.org/ads from example.org", query: q("netall", "http://example.org/ads?u=example.org", "http://example.org/", rules.TypeScript), slot: -1},
 		{name: "netall exaample.net (regex rules)", query: q("netall", "http://exaample.net/", "", rules.TypeImage), slot: -1},
 		{name: "engine example.org/ads from other.org", query: q("engine", "http://example.org/ads", "http://other.org/", rules.TypeScript), slot: 2},
-		{name: "cosmetic example.org", query: &scen.Query{Kind: "cosmetic", Host: "example.org", Option: rules.CosmeticOptionAll}, slot: -1},
 		{name: "netmatch ads.example.com", query: q("netmatch", "http://ads.example.com/x", "", rules.TypeScript), slot: -1},
 		{name: "engine cdn.test/lib.js from docsite.test (document exception on the referrer)", query: q("engine", "http://cdn.test/lib.js", "http://docsite.test/", rules.TypeScript), slot: 3},
 		{name: "dns metrics.example.com", query: d("metrics.example.com", 1, "", ""), slot: -1},
+		{name: "engine tracker.test from news.example.org/reader/ (path-specific $urlblock on the referrer)", query: q("engine", "http://tracker.test/t.js", "http://news.example.org/reader/a", rules.TypeScript), slot: -1},
+		{name: "engine tracker.test from news.example.org/front", query: q("engine", "http://tracker.test/t.js", "http://news.example.org/front", rules.TypeScript), slot: -1},
+		{name: "cosmetic other.net (held)", query: &scen.Query{Kind: "cosmetic", Host: "other.net", Option: rules.CosmeticOptionAll}, slot: 4},
+		{name: "cosmetic example.org (held)", query: &scen.Query{Kind: "cosmetic", Host: "example.org", Option: rules.CosmeticOptionAll}, slot: 5},
 		{name: "netall other.test/?u=metrics.example.com", query: q("netall", "http://other.test/?u=metrics.example.com", "", rules.TypeScript), slot: -1},
 		{name: "GetBasicResult()+GetCosmeticOption() on held docsite result", deriv: "basic", on: 3},
 		{name: "DNSRewrites() on held rw.test result", deriv: "rewrites", on: 1},
@@ -74,12 +77,16 @@ type c13Held struct {
 	dns  *urlfilter.DNSResult
 	ok   bool
 	mr   *rules.MatchingResult
+	cos  *urlfilter.CosmeticResult
 	snap string
 }
 
 func (h *c13Held) render() string {
-	if h.dns != nil {
+	switch {
+	case h.dns != nil:
 		return scen.RenderDNSResult(h.dns, h.ok)
+	case h.cos != nil:
+		return scen.RenderCosmetic(*h.cos)
 	}
 	return scen.RenderMatchingResult(h.mr)
 }
@@ -143,6 +150,12 @@ func (m *c13Model) step(e *scen.Engines, pool *shim.Pool[rules.Request], held ma
 				mr := e.Eng.MatchRequest(rules.NewRequest(op.query.URL, op.query.Src, op.query.Type))
 				ans = scen.RenderMatchingResult(mr)
 				h := &c13Held{mr: mr}
+				h.snap = h.render()
+				held[op.slot] = h
+			case 4, 5:
+				cr := e.Eng.GetCosmeticResult(op.query.Host, op.query.Option)
+				ans = scen.RenderCosmetic(cr)
+				h := &c13Held{cos: &cr}
 				h.snap = h.render()
 				held[op.slot] = h
 			default:
@@ -229,7 +242,7 @@ func (m *c13Model) finish(e *scen.Engines, st *filterlist.RuleStorage, pool *shi
 	for i, op := range m.ops {
 		enabled[i] = op.query != nil || op.on < 0 || held[op.on] != nil
 	}
-	for slot := 0; slot < 4; slot++ {
+	for slot := 0; slot < 6; slot++ {
 		if h := held[slot]; h != nil {
 			fmt.Fprintf(&sb, "|held%d:%s", slot, h.snap)
 		}
@@ -261,6 +274,8 @@ func init() {
 				case 0, 1:
 					res, ok := e.DNS.MatchRequest(op.query.DNSRequest())
 					m.expected[i] = scen.RenderDNSResult(res, ok) + " rewrites=" + scen.RenderNets(res.DNSRewrites())
+				case 4, 5:
+					m.expected[i] = scen.RenderCosmetic(e.Eng.GetCosmeticResult(op.query.Host, op.query.Option))
 				case 2, 3:
 					m.expected[i] = scen.RenderMatchingResult(e.Eng.MatchRequest(rules.NewRequest(op.query.URL, op.query.Src, op.query.Type)))
 				default:
@@ -289,9 +304,12 @@ func init() {
 			}
 			g := statespace.BFS(model, gd, false, c.Workers, c.Deadline)
 			// main pass: de-duplicated search to the fixpoint (or the depth bound)
-			maxDepth := 0 // until the frontier is empty (fixpoint); the deadline guards it
-			if file && !c.Thorough() {
-				maxDepth = 5 // quick: the file-backed variant is bounded, the string-backed one runs to the fixpoint
+			maxDepth := 0 // thorough: until the frontier is empty (fixpoint); the deadline guards it
+			if !c.Thorough() {
+				maxDepth = 5 // quick: every history of up to 5 operations (de-duplicated), String-backed; 4 File-backed
+				if file {
+					maxDepth = 4
+				}
 			}
 			s := statespace.BFS(model, maxDepth, true, c.Workers, c.Deadline)
 			total.States += s.States
@@ -304,8 +322,8 @@ func init() {
 				"max_depth": s.MaxDepth, "fixpoint": s.Fixpoint, "deadline_hit": s.DeadlineHit, "states_per_depth": s.PerDepth, "distinct_observations": s.DistinctOutcomes,
 				"non_dedup_guard_depth": gd, "non_dedup_guard_histories": g.States, "non_dedup_deadline_hit": g.DeadlineHit})
 			if !file {
-				c.Run.Sample(map[string]any{"history": []string{ops[1].name, ops[19].name, ops[4].name}, "checked": "last answer equals the fresh-engine answer; no held result changed"})
-				c.Run.Sample(map[string]any{"history": []string{ops[3].name, ops[15].name, ops[3].name, ops[16].name}})
+				c.Run.Sample(map[string]any{"history": []string{ops[1].name, ops[len(ops)-2].name, ops[4].name}, "checked": "last answer equals the fresh-engine answer; no held result changed"})
+				c.Run.Sample(map[string]any{"history": []string{ops[3].name, ops[len(ops)-6].name, ops[3].name, ops[len(ops)-5].name}})
 			}
 		}
 		fix := true
